@@ -46,7 +46,7 @@ WITNESSES = {
     "C01": {"T3Tag": ["W_Rejected", "W_Refused", "W_Batches", "W_Full", "W_Recover", "W_EmptyMsg", "W_OtherSystem"],
             "T4Tag": ["W_Single", "W_Multi", "W_Rejected", "W_Refused", "W_Full", "W_TwoDigit"]},
     "C02": {"T3Tag": ["W_CutOld", "W_CutNotReadable", "W_CutNew", "W_FailedMidway"],
-            "T4Tag": ["W_CutOld", "W_CutEmpty", "W_CutNew"]},
+            "T4Tag": ["W_CutOld", "W_CutEmpty", "W_CutNew", "W_FailedEmpty"]},
     "C03": {"T3Tag": ["W_FormatWipe", "W_Full"], "T4Tag": ["W_Wipe", "W_Full"]},
 }
 # thorough tier: larger scaled constants
@@ -354,7 +354,8 @@ def t4_build(case):
     img += rnd_bytes(case["seed"] * 7 + 2, flen - len(img))
     return SimT4T(ver=L["ver"], tlv_tag=L["tlv"], mle=L["mle"], mlc=L["mlc"], mfs=L["mfs"], flen=flen,
                   wf=L.get("wf", 0), ndef=img, other=rnd_bytes(case["seed"] * 7 + 3, 8),
-                  fsci=L.get("fsci", 8), cut_after=case.get("cut"), tech=L.get("tech", "A"))
+                  fsci=L.get("fsci", 8), cut_after=case.get("cut"), tech=L.get("tech", "A"),
+                  outage=case.get("outage"))
 
 
 def t4_activate(t):
@@ -404,18 +405,22 @@ def run_t4(case):
             res = classify_exc(e)
     if op != "read":
         for w in t.log:
+            if w.get("drop") or w.get("okmark"):
+                ev.append(dict(a="Drop" if w.get("drop") else "Ok"))
+                continue
             ev.append(dict(a="W", fid=t4_fid(t, w["fid"]), off=w["off"], data=list(w["data"]), ok=w["ok"]))
         if not t.powered:
             ev.append(dict(a="Cut"))
         ev.append(dict(a="Ret", res=res, cap=cap))
     ncmds = len(t.log)
+    nframes = t.fidx or 0           # PCD frames from the first UPDATE BINARY block on (fault-free numbering)
     breaches = list(t.breaches)
     t.power_on()
     k, v = fresh_view(t4_activate(t))
     reads = [[off, le] for (fid, off, le, got) in t.reads if fid == t.ndef_fid.hex()]
     ev.append(dict(a="View", k=k, v=v, reads=reads, ndef=list(t.ndef_file()),
                    oth=list(t.files[t.other_fid])))
-    return dict(id=case["id"], init=init, ev=ev), dict(ncmds=ncmds, breaches=breaches + list(t.breaches))
+    return dict(id=case["id"], init=init, ev=ev), dict(ncmds=ncmds, nframes=nframes, breaches=breaches + list(t.breaches))
 
 
 RUNNERS = {"t3": run_t3, "emu": run_t3, "t4": run_t4}
@@ -673,6 +678,19 @@ def gen_cases(pid, tier, seed):
                 c["cut"] = k
                 c["id"] = "%s-cut%d" % (base["id"], k)
                 cases.append(c)
+            if kind == "t4":
+                # transient outage on the ISO-DEP link: frames k..k+r-1 lost (k counted from the first block of
+                # the first UPDATE BINARY); 6 = attempts per block of IsoDepInitiator (fails), 7, and 5 (recovers)
+                nf = info["nframes"]
+                ks = sorted({0, 1, nf // 2, nf - 2, nf - 1} & set(range(nf)))
+                if full:
+                    ks = list(range(nf)) if nf <= 12 else sorted(set(ks) | set(rnd.sample(range(nf), 8)))
+                for k in ks:
+                    for r in ((5, 6, 7) if not full else (1, 3, 5, 6, 7, 12)):
+                        c = dict(base)
+                        c["outage"] = [k, r]
+                        c["id"] = "%s-out%d.%d" % (base["id"], k, r)
+                        cases.append(c)
             if kind in ("t3", "emu"):
                 # transient outage: the write frames k..k+r-1 are lost, later ones reach the tag again; r = the
                 # retry budget of send_cmd_recv_rsp (3: one command lost for good) and r + 1, smaller r recover
